@@ -282,8 +282,14 @@ class _ShapeNF(ast.NodeTransformer):
         single name), the body neither assigns the targets nor breaks/continues out of this loop, and there is no else clause.
         Exact up to *when* the attribute chains are read (once per element at table construction vs at each use); restricted to
         chains that the body does not store to."""
-        if not isinstance(s, ast.For) or s.orelse or not isinstance(s.iter, (ast.Tuple, ast.List)) or not (1 <= len(s.iter.elts) <= 12):
+        if not isinstance(s, ast.For) or s.orelse:
             return None
+        it = s.iter
+        if isinstance(it, ast.Name) and it.id in getattr(self, "_tables", {}):
+            it = self._tables[it.id]        # a module-level literal table bound exactly once (and never a local of this function)
+        if not isinstance(it, (ast.Tuple, ast.List)) or not (1 <= len(it.elts) <= 12):
+            return None
+        s = ast.copy_location(ast.For(target=s.target, iter=it, body=s.body, orelse=[]), s)
         tg = s.target
         names = [tg.id] if isinstance(tg, ast.Name) else \
             [e.id for e in tg.elts] if isinstance(tg, ast.Tuple) and all(isinstance(e, ast.Name) for e in tg.elts) else None
@@ -642,10 +648,32 @@ def functions(tree):
     yield from rec(tree.body, "")
 
 
+def _module_tables(tree):
+    """module-level names bound exactly once, to a literal tuple/list, and rebound/declared global nowhere in the module"""
+    if not isinstance(tree, ast.Module):
+        return {}
+    cnt, val = {}, {}
+    for n in ast.walk(tree):
+        if isinstance(n, ast.Name) and isinstance(n.ctx, (ast.Store, ast.Del)):
+            cnt[n.id] = cnt.get(n.id, 0) + 1
+        elif isinstance(n, (ast.Global, ast.Nonlocal)):
+            for k in n.names:
+                cnt[k] = cnt.get(k, 0) + 2
+        elif isinstance(n, ast.arg):
+            cnt[n.arg] = cnt.get(n.arg, 0) + 2
+    for st in tree.body:
+        if isinstance(st, ast.Assign) and len(st.targets) == 1 and isinstance(st.targets[0], ast.Name) and \
+                isinstance(st.value, (ast.Tuple, ast.List)):
+            val[st.targets[0].id] = st.value
+    return {k: v for k, v in val.items() if cnt.get(k) == 1}
+
+
 def _nf(tree):
     tree = _BoolNF().visit(tree)
     if _OPT - {""}:
-        tree = _ShapeNF().visit(tree)
+        sh = _ShapeNF()
+        sh._tables = _module_tables(tree)
+        tree = sh.visit(tree)
     return tree
 
 
